@@ -1,0 +1,5 @@
+//go:build !verif
+
+package cmap
+
+func verifPoint(string, ...any) {}
